@@ -630,6 +630,13 @@ impl<Tx: Debug + ProstMessage + Default, Rx: Debug + ProstMessage + Default> Cha
         }
 
         if self.front_buf.available_space() == 0 {
+            // Reclaim the already-consumed prefix before declaring the buffer
+            // full: a frame within max_buffer_size always fits once the
+            // pending data sits at the start of the buffer.
+            self.front_buf.shift();
+        }
+
+        if self.front_buf.available_space() == 0 {
             if self.front_buf.capacity() >= self.max_buffer_size {
                 return Err(ChannelError::BufferFull {
                     capacity: self.front_buf.capacity(),
